@@ -46,3 +46,40 @@ package vortex
 //@ ensures[rejects] !isnil(result1) ==> i < 0 || i >= 1 << (len(mt.Levels) - 1)
 //@ modifies nothing
 //@ end
+
+// BuildMerkleTree (C16): the leaves the tree is built on are the given hashes followed by zero hashes up to the
+// next power of two ("padded with zero hashes": stated where the level loop starts and kept by it), the tree has
+// depth+1 levels, and the caller's slice is not written. parallel.Execute(n, work) is executed as work(0, n). The
+// rows of the levels are written through a slice of slices, which is not modelled: that level l holds the
+// compressions of the pairs of level l+1 is NOT under contract, and the index operations of the level loop are not
+// obligations (option index-panics-allowed); nextPowerOfTwo (bit smearing) and log2Ceil are assumed contracts.
+
+//@ func nextPowerOfTwo
+//@ layer opaque Hash
+//@ assumed bit smearing (not modelled): the result is the smallest power of two that is at least the argument, for an argument in 0 .. 2^62; only "at least the argument, at most 2^62" is used
+//@ ensures result >= in && result >= 0 && result <= 4611686018427387904
+//@ end
+
+//@ func log2Ceil
+//@ layer opaque Hash
+//@ assumed counts halvings: the result is the ceiling of the binary logarithm of the argument; only its range is used
+//@ ensures 0 <= result && result <= 63
+//@ end
+
+//@ func BuildMerkleTree
+//@ layer opaque Hash
+//@ option opaque-calls
+//@ option execute-as-range
+//@ option index-panics-allowed
+//@ option nomerge
+//@ requires len(hashes) >= 1
+//@ loop 0
+//@ + invariant[padded] len(paddedHashes) == newPow2 && forall(j, 0, len(hashes), paddedHashes[j] == hashes[j]) && forall(j, len(hashes), newPow2, paddedHashes[j] == zeroof(hashes[0]))
+//@ loop 1
+//@ + invariant[index] -1 <= rangeindex
+//@ inner *
+//@ loop 0
+//@ + invariant[index] 0 <= k
+//@ ensures[levels] len(result.Levels) == depth + 1
+//@ modifies nothing
+//@ end
